@@ -9,6 +9,7 @@ from tqdm.auto import tqdm
 import numpy as np
 
 from sigpy import backend, linop, prox, util
+from sigpy import _verif  # noqa: I001
 from sigpy.alg import (
     ADMM,
     ConjugateGradient,
@@ -71,6 +72,8 @@ class App(object):
 
     def run(self):
         """Run the App."""
+        if _verif.ON:
+            _verif.app_run_begin(self)
         if self.show_pbar:
             if self.__class__.__name__ == "App":
                 name = self.alg.__class__.__name__
@@ -100,6 +103,8 @@ class App(object):
         if self.show_pbar:
             self.pbar.close()
 
+        if _verif.ON:
+            return _verif.app_run_end(self, self._output())
         return self._output()
 
 
